@@ -375,8 +375,47 @@ def rule_derivers_kept(ctx: Ctx) -> None:
     ctx.add("7-derivers", MOD, "", True, f"{g} itemgetter/attrgetter call(s) examined", key="getter-scan")
 
 
+def rule_closures_and_names(ctx: Ctx) -> None:
+    """Two Python pitfalls that silently change WHICH combinations a sweep yields:
+    (a) a closure created in a loop reads the loop variable late - a chain of exclude functions built that way calls the LAST
+        function at every link, the excludes of the other operands are dropped;
+    (b) a dims entry is `str | tuple[str, ...]`; iterating an entry that may be a str walks its characters - names longer than one
+        character vanish from the filtered dims.  Every iteration over such a value must sit under an isinstance test of it."""
+    from ..flow import late_bound_closures
+
+    P = ctx.prog
+    fns = [f for f in P.functions.values() if f.module.name == "pipefunc.sweep"]
+    late = [(f, cl, v) for f in fns for cl, v, _lp in late_bound_closures(f.node) if f.parent is None or True]
+    seen_ids = set()
+    late = [(f, cl, v) for f, cl, v in late if not (id(cl) in seen_ids or seen_ids.add(id(cl)))]
+    ctx.add("1-all-operands", late[0][0] if late else fns[0], late[0][1] if late else fns[0].node, not late, "no closure created in a loop reads the loop variable late" if not late else
+            f"`{norm(late[0][1])[:70]}` is created in a loop and reads `{late[0][2]}` as a free variable: Python binds it late, so every closure built by the loop sees the LAST value - "
+            "with three or more operands the combined exclude calls the last function at every link and the excludes of the operands in between are lost", key="late-binding")
+    n = 0
+    for f in fns:
+        par = {id(c): p_ for p_ in ast.walk(f.node) for c in ast.iter_child_nodes(p_)}
+        for it in ast.walk(f.node):
+            src = it.iter if isinstance(it, (ast.For, ast.comprehension)) else None
+            if not isinstance(src, ast.Name):
+                continue
+            ty = ctx.cg.typer.expr(f, src)
+            alts = ty.args if ty.kind == "union" else (ty,)
+            if not (any(a.kind == "builtin" and a.name == "str" for a in alts) and any(a.kind in ("tuple", "seq") for a in alts)):
+                continue
+            n += 1
+            guarded = False
+            x: ast.AST = it
+            while id(x) in par:
+                x = par[id(x)]
+                if isinstance(x, (ast.If, ast.IfExp)) and any(isinstance(c, ast.Call) and dotted(c.func) == "isinstance" and c.args and norm(c.args[0]) == src.id for c in ast.walk(x.test)):
+                    guarded = True
+            ctx.add("5-shape", f, it if not isinstance(it, ast.comprehension) else src, guarded, f"`{src.id}` (str | tuple) is iterated only under an isinstance test" if guarded else
+                    f"`{src.id}` may be a plain name (str) or a tuple of names; iterating it without an isinstance test walks the CHARACTERS of a name: every bare dims entry longer than one character is dropped from the filtered sweep", key=f"str-iteration {f.name} {src.id}")
+    ctx.floor("5-shape.str-or-tuple", n, 1)
+
+
 def check(ctx: Ctx) -> None:
-    for rule in (rule_all_operands, rule_reads_dims, rule_len_mirror, rule_arms, rule_shape, rule_pure, rule_derivers_kept):
+    for rule in (rule_all_operands, rule_reads_dims, rule_len_mirror, rule_arms, rule_shape, rule_pure, rule_derivers_kept, rule_closures_and_names):
         ctx.run(rule)
 
 
